@@ -869,6 +869,9 @@ func valueText(v ssa.Value) string {
 		if x.Call.IsInvoke() && len(x.Call.Args) == 0 {
 			return valueText(x.Call.Value) + "." + x.Call.Method.Name() + "()"
 		}
+		if callee := x.Call.StaticCallee(); callee != nil && callee.Signature.Recv() != nil && len(x.Call.Args) == 1 {
+			return valueText(x.Call.Args[0]) + "." + callee.Name() + "()"
+		}
 	case *ssa.MakeInterface:
 		return valueText(x.X)
 	case *ssa.UnOp:
